@@ -291,7 +291,7 @@ func init() {
 			if tier == "thorough" {
 				return 6000
 			}
-			return 160
+			return 400
 		},
 		Run:       c11Run,
 		MustProbe: []string{"module_branch", "matching_level_not_first", "auth_65535", "recovery_after_faults", "intel_sample_quote", "default_options_on_fake_clock", "crl_lists_same_serial_of_another_issuer"},
